@@ -372,13 +372,13 @@ def r4_no_stale_cache(ctx: Context) -> None:
                 ctx.fail("R4.no-stale-cache", f"plot_results.{f2.name}:module-cache:{x.targets[0].value.id}", f"`{src(x)[:70]}` caches checkpoint content in module-level `{x.targets[0].value.id}`", f2, x)
 
 
-def restored_records_identity(ctx: Context) -> None:
+def restored_records_identity(ctx: Context, extra: tuple[str, ...] = ()) -> None:
     """After a restore label i still belongs to sample i: every per-sample record (parameters, losses, series, batch index, sampler id) comes back through
     the persistence chain unchanged - the field-plumbing rule of C04 (R1), kept to the per-sample fields (what C04 says about the other fields, including
     its known findings, is C04's business)."""
     from . import c04
     from ..persist import Plumbing
-    fields = ("params_samp", "losses_samp", "series_samp", "batch_num_samp", "method_samp")
+    fields = ("params_samp", "losses_samp", "series_samp", "batch_num_samp", "method_samp", *extra)
     before, n_obl = len(ctx.findings), len(ctx.obligations)
     c04.r1_plumbing(ctx, Plumbing(ctx.prog))
     keep = [f for f in ctx.findings[before:] if any(fl in f.key for fl in fields)]
